@@ -18,7 +18,7 @@ def sh(cmd, cwd=None, timeout=3600, env=None):
 def main():
     ap = argparse.ArgumentParser()
     ap.add_argument('pid'); ap.add_argument('outdir'); ap.add_argument('names', nargs='*')
-    ap.add_argument('--also', default=''); ap.add_argument('--no-thorough', action='store_true')
+    ap.add_argument('--also', default=''); ap.add_argument('--no-thorough', action='store_true'); ap.add_argument('--suffix', default='')
     a = ap.parse_args()
     wt = os.path.dirname(os.path.abspath(a.outdir.rstrip('/')))
     names = a.names or sorted({f[:-5] for f in os.listdir(a.outdir) if f.endswith('.diff')})
@@ -71,7 +71,7 @@ def main():
         finally:
             sh('git -C /repo checkout -- .')
             sh('git checkout -- evidence', cwd=V)      # evidence written while the change was applied is not evidence
-        dst = os.path.join(V, 'seeded', '%s-%s' % (a.pid, x))
+        dst = os.path.join(V, 'seeded', '%s-%s%s' % (a.pid, x, a.suffix))
         os.makedirs(dst, exist_ok=True)
         shutil.copy(diff, os.path.join(dst, 'patch.diff')); shutil.copy(demo, os.path.join(dst, 'demo.py'))
         meta.update(property=a.pid, confirmed=res, checks=checks,
